@@ -52,6 +52,7 @@ type compKind struct {
 	byPath  map[string]*schemaNode
 	Leaves  []*schemaNode
 	Structs []*schemaNode
+	Lists   []*schemaNode
 }
 
 func (k *compKind) name() string { return k.Section + "/" + k.Type }
@@ -128,23 +129,33 @@ func init() {
 		for t.Kind() == reflect.Pointer {
 			t = t.Elem()
 		}
-		k.byPath = map[string]*schemaNode{}
-		if t.Kind() == reflect.Struct {
-			k.Nodes = walkSchema(t)
-		}
-		for _, n := range k.Nodes {
-			k.byPath[n.key()] = n
-			switch n.Kind {
-			case kLeaf:
-				if n.gen = leafGen(k, n); n.gen == nil {
-					n.Kind, n.Why = kSkipped, "no generator for "+n.Type.String()
-					continue
-				}
-				k.Leaves = append(k.Leaves, n)
-			case kStruct:
-				k.Structs = append(k.Structs, n)
-			}
-		}
+		finishKind(k, t, false)
 		kindByName[k.name()] = k
+	}
+}
+
+// finishKind derives and indexes the schema of a kind.
+func finishKind(k *compKind, t reflect.Type, inElem bool) {
+	k.byPath = map[string]*schemaNode{}
+	if t.Kind() == reflect.Struct {
+		k.Nodes = walkSchemaMode(t, inElem)
+	}
+	for _, n := range k.Nodes {
+		k.byPath[n.key()] = n
+		switch n.Kind {
+		case kLeaf:
+			if n.gen = leafGen(k, n); n.gen == nil {
+				n.Kind, n.Why = kSkipped, "no generator for "+n.Type.String()
+				continue
+			}
+			k.Leaves = append(k.Leaves, n)
+		case kStruct:
+			k.Structs = append(k.Structs, n)
+		case kList:
+			et, _ := listElemType(n.Type)
+			n.Elem = &compKind{Section: "elem", Type: et.String()}
+			finishKind(n.Elem, et, true)
+			k.Lists = append(k.Lists, n)
+		}
 	}
 }
